@@ -199,13 +199,16 @@ def cases(draw, dialects=None):
                 e['table'] = [schema_name, nm.table()]
             elif draw(st.integers(0, 3)) == 0:
                 e['table'] = nm.table()
-            kind = draw(st.sampled_from(['implicit', 'implicit', 'implicit', 'single', 'single', 'auto', 'composite',
-                                         'composite_ref', 'single_ref', 'single_ref']))
             earlier_roots = [x for x in ents[:-1]]
+            pk_kinds = ['implicit', 'implicit', 'implicit', 'single', 'single', 'auto', 'composite', 'composite_ref',
+                        'single_ref', 'single_ref']
+            if any(pk_width[root_of[x['name']]] > 1 for x in earlier_roots):
+                pk_kinds += ['single_ref', 'single_ref', 'composite_ref']      # references to a multi-column pk are the rare shape
+            kind = draw(st.sampled_from(pk_kinds))
             if kind in ('composite_ref', 'single_ref') and not earlier_roots:
                 kind = 'composite'
             wide_roots = [x for x in earlier_roots if pk_width[root_of[x['name']]] > 1]
-            if kind in ('composite_ref', 'single_ref') and wide_roots and draw(st.booleans()):
+            if kind in ('composite_ref', 'single_ref') and wide_roots and draw(st.integers(0, 3)):
                 earlier_roots = wide_roots      # a reference to a multi-column primary key
             if kind == 'implicit':
                 pk_width[name] = 1
@@ -348,12 +351,20 @@ def cases(draw, dialects=None):
     wide_ents = [x for x in ents if pk_width[root_of[x['name']]] > 1]
     # ... of which: the primary key is ONE attribute (a reference) that spans several columns
     wide_single = [x for x in wide_ents if not by_name[root_of[x['name']]]['pk']]
-    for _ in range(draw(st.integers(0, 4))):
-        kind = draw(st.sampled_from(kinds))
-        e1 = draw(st.sampled_from(ents))
-        if kind in ('m2m', 'self_m2m', 'self_sym_m2m') and wide_ents and draw(st.integers(0, 2)) == 0:
-            e1 = draw(st.sampled_from(wide_single if wide_single and draw(st.booleans()) else wide_ents))
-            # a link-table half that spans several columns
+    # half of the specs that contain an entity with a multi-column primary key get a many-to-many relationship on such an
+    # entity for sure (a link-table half that spans several columns), preferably one whose pk is a single wide reference
+    planned = []
+    if wide_ents and draw(st.booleans()):
+        planned.append((draw(st.sampled_from(['m2m', 'm2m', 'self_m2m', 'self_sym_m2m'])),
+                        draw(st.sampled_from(wide_single if wide_single and draw(st.integers(0, 3)) else wide_ents))))
+    for k_rel in range(len(planned) + draw(st.integers(0, 4 - len(planned)))):
+        if k_rel < len(planned):
+            kind, e1 = planned[k_rel]
+        else:
+            kind = draw(st.sampled_from(kinds))
+            e1 = draw(st.sampled_from(ents))
+            if kind in ('m2m', 'self_m2m', 'self_sym_m2m') and wide_ents and draw(st.integers(0, 2)) == 0:
+                e1 = draw(st.sampled_from(wide_single if wide_single and draw(st.booleans()) else wide_ents))
         e2 = e1 if kind.startswith('self') else draw(st.sampled_from(ents))
         if kind == 'm2m' and draw(st.booleans()):
             e1, e2 = e2, e1
